@@ -189,11 +189,15 @@ func runRegFault(t *testing.T, rec *recorder, api string, sc string, scratch str
 	}()
 	var res result
 	yielded := true
+	t0 := time.Now()
 	select {
 	case res = <-resCh:
 	case <-time.After(8 * time.Second):
 		yielded = false
 	}
+	// (strace is attached to every thread of this process: if it stalls, nothing here runs and the timer above fires
+	// late -- such a wait says nothing about the call)
+	stalled := !yielded && time.Since(t0) > 12*time.Second
 	injected := false
 	if cmd != nil {
 		_ = cmd.Process.Signal(syscall.SIGINT)
@@ -203,7 +207,9 @@ func runRegFault(t *testing.T, rec *recorder, api string, sc string, scratch str
 			_ = os.Remove(logPath)
 		}
 	}
-	if !yielded {
+	if stalled {
+		rec.emit("FaultSkip", "why", "the process did not run while strace was attached")
+	} else if !yielded {
 		rec.emit("RegNoResult", "api", api, "injected", injected)
 	} else {
 		fd, usable := -2, false
